@@ -50,6 +50,25 @@ class ChildEvent:
         return z3.Lambda([a], z3.If(prot, z3.Select(mem, a), z3.Select(self.fresh_mem, a)))
 
 
+@dc.dataclass
+class CallEvent:
+    """a call through the call protocol, replaced by the callee's contract"""
+    label: str
+    args: list
+    ret: object
+    pre: State
+    fresh_mem: object
+    lo: object                    # callee frame pointer: [lo, stack_end) (caller frames) is preserved
+    abnormal: str | None = None
+    ctx: object = None
+    private: tuple = ()
+    info: object = None
+    havoc = ChildEvent.havoc
+    protects = ChildEvent.protects
+    exposes = ChildEvent.exposes
+    havoc_z3 = ChildEvent.havoc_z3
+
+
 def root_cause(leaf):
     while leaf.kind == 'bot' and leaf.rewinds and leaf.rewinds[0][1].kind == 'bot':
         leaf = leaf.rewinds[0][1]
@@ -65,7 +84,7 @@ class LemmaCtx(Ctx):
 
 class Lemma:
     def __init__(self, name, w=2, unchecked=False, may_defeat=False, virtual_defeat=False, interpret=(), src=None,
-                 n_prior_arrays=0, decisions=()):
+                 n_prior_arrays=0, decisions=(), concrete_offset=None):
         self.name = name; self.w = w; self.unchecked = unchecked
         self.may_defeat = may_defeat; self.virtual_defeat = virtual_defeat
         self.session = Session(decisions); self.session.__enter__()
@@ -84,6 +103,8 @@ class Lemma:
         # --- symbolic compile-time frame
         self.OMAX = 1 << (self.bits - 3)
         self.O = S.symbol('O', lo=w, hi=self.OMAX)            # frame offset at entry (at least the RA slot)
+        if concrete_offset is not None:
+            self.O = concrete_offset                          # function entry: gen_func starts from StackPoint(0)
         self.Sz = S.symbol('S', lo=0, hi=self.OMAX)           # static array bytes at entry
         cg.stack = StackPoint(offset=self.O, array_num=n_prior_arrays, static_array_size=self.Sz if n_prior_arrays else 0)
         self.entry_stack = cg.stack
@@ -97,9 +118,9 @@ class Lemma:
             regs[r] = z3.Int(r + '0')
             c.pre += [regs[r] >= 0, regs[r] < self.M]
         self.entry = State(regs, z3.Array('mem0', z3.IntSort(), z3.IntSort()))
-        self.entry_offset = self.O.z3()
+        self.entry_offset = self.term(self.O)
         fp, ap = regs['fp'], regs['ap']
-        c.pre += [5 * w <= ap, ap + self.O.z3() <= fp,                  # I-regs: stack_start <= ap <= fp - offset
+        c.pre += [5 * w <= ap, ap + self.term(self.O) <= fp,                  # I-regs: stack_start <= ap <= fp - offset
                   fp <= c.stack_end, c.stack_end < self.M // 2]
         if not virtual_defeat:
             c.pre.append(regs['defeat'] == c.label('halt'))
@@ -123,7 +144,7 @@ class Lemma:
         slot holds the value ap had before the array was allocated; extents stack up below the current ap"""
         cg = self.cg; w = self.w; E = self.entry
         X = self.sym(f'XA{i}')          # offset of the origin slot; the length slot is the word above it
-        self.session.assume(X.z3() >= 3 * w); self.session.assume(X.z3() <= self.O.z3())
+        self.session.assume(X.z3() >= 3 * w); self.session.assume(X.z3() <= self.term(self.O))
         origin = asm.Indirect(asm.Section.STATE, asm.State(cg.fp), asm.IntLiteral(-X))
         length = asm.Indirect(asm.Section.STATE, asm.State(cg.fp), asm.IntLiteral(-(X - w)))
         ref = ArrayRef(ConcreteArrayType(el_type, AccessMode.RW), origin=origin, length=length)
@@ -183,7 +204,7 @@ class Lemma:
         # slot somewhere in the entry frame below the RA word
         X = self.sym('X' + name)
         self.session.assume(X.z3() >= size + self.w)
-        self.session.assume(X.z3() <= self.O.z3())
+        self.session.assume(X.z3() <= self.term(self.O))
         acc = (asm.IndirectByte if size == 1 else asm.Indirect)(asm.Section.STATE, asm.State(self.cg.fp), asm.IntLiteral(-X))
         self.cg.local_vars[name] = acc
         var = ast.Variable(name, t, const)
@@ -287,7 +308,9 @@ class Lemma:
                 s3 = abnormal('defeat')
                 # defeat may be raised from an arbitrarily deep callee: fp and ap are whatever they are there
                 s3.regs['fp'] = c.fresh('fp_d'); s3.regs['ap'] = c.fresh('ap_d')
-                leaves.append(([], 'goto', s3.regs['defeat'], s3))
+                # ... but deeper activations live below this frame and above the array stack (I-regs of those activations)
+                deep = [ap <= s3.regs['ap'], s3.regs['ap'] <= s3.regs['fp'], s3.regs['fp'] <= fp - o_now]
+                leaves.append((deep, 'goto', s3.regs['defeat'], s3))
         return leaves
 
     # ---- running a real method ----------------------------------------------------------------------------------------
@@ -305,6 +328,8 @@ class Lemma:
         self._finalized = True
         self.cg.checkpoints.pop_level()
         Mx = self.headroom._data
+        if Mx is None:
+            return None         # the method replaced the Tracker (gen_func): its own entry guard establishes the head-room
         c = self.ctx
         # I-headroom: fp - ap >= M - S   (checked builds establish it by the guards; unchecked builds assume it)
         c.pre.append(self.entry.regs['ap'] + self.term(Mx - self.entry_stack.static_array_size) <= self.entry.regs['fp'])
@@ -443,6 +468,9 @@ class Lemma:
                 raise SP.Mismatch(f'child entered a terminal state, emitted code continued: {k} {leaf.tgt}')
             if out.what == 'defeat' and k not in ('bot', 'ijump'):
                 raise SP.Mismatch(f'child reached defeat, emitted code continued: {k} {leaf.tgt}')
+        elif out.kind == 'terminal':
+            if not (k == 'term' and leaf.tgt == out.what):
+                raise SP.Mismatch(f'source semantics enters the terminal state {out.what}, emitted code does {k} {leaf.tgt}')
         elif out.kind == 'child-term':
             if not (k == 'term' and leaf.tgt == 'child'):
                 raise SP.Mismatch(f'child entered a terminal state, emitted code continued: {k} {leaf.tgt}')
@@ -494,7 +522,7 @@ class Lemma:
                     if c_.kind == 'bot' and c_.tag is None:
                         chain.append(c_); causes(c_)
             causes(l)
-            return any(x.st.trace and x.st.trace[-1][0] == 'child' and x.st.trace[-1][2].abnormal == 'defeat' for x in chain)
+            return any(x.st.trace and x.st.trace[-1][0] in ('child', 'call') and x.st.trace[-1][2].abnormal == 'defeat' for x in chain)
         # a defeat leaf is legitimate only as the direct consequence of a child that reached defeat (which the context
         # rules allow only in defeat context); a halt of the glue itself on the committed timeline is a violation
         bad = [l for l in leaves if l.kind == 'bot' and l.tag is None and not child_defeated(l) and not self.glue_may_defeat]
@@ -750,7 +778,7 @@ class Lemma:
         maxlen = ((1 << (self.bits - 1)) - 1) // (1 if el.byte_sized else w)
         if where == 'local':
             X = self.sym('XL' + name)            # length slot at X, origin slot at X + w  (reserve_type order)
-            self.session.assume(X.z3() >= 2 * w); self.session.assume(X.z3() + w <= self.O.z3())
+            self.session.assume(X.z3() >= 2 * w); self.session.assume(X.z3() + w <= self.term(self.O))
             ref = ArrayRef(ctype, origin=asm.Indirect(asm.Section.STATE, asm.State(cg.fp), asm.IntLiteral(-(X + w))),
                            length=asm.Indirect(asm.Section.STATE, asm.State(cg.fp), asm.IntLiteral(-X)))
             cg.local_vars[name] = ref
@@ -857,6 +885,82 @@ class Lemma:
             self.prove_all('CHILDPRE', [s for s in eng.safety if 'precondition' in s[1]], P['SIM'])
         self.cover(leaves, list(want_cover), P['SIM'])
         return self.results
+
+    # ---- calls (call protocol, DESIGN section 8 C01) -----------------------------------------------------------------------------
+    def install_callees(self, callees):
+        """callees: label name -> dict(sizes=[bytes per argument slot], ret=DataType, defeat=bool)
+        Callee contract (proved on the callee side by the gen_func lemma and the statement lemmas for `return`):
+          on entry fp is the callee frame pointer, RA at [fp-w, fp), arguments below it in declaration order;
+          it returns to RA with fp, ap, try_fp, defeat unchanged, the result in slot 0 (just below fp), every byte of the caller
+          frames [fp, stack_end) unchanged; anything below fp, globals and arrays reachable by reference may have changed."""
+        self.callees = dict(callees)
+        self.ctx.external = self.call_contract
+
+    def expected_label(self, e, vals):
+        """the label the call protocol prescribes: label_for_func of the concrete signature (element type + storage of array arguments)"""
+        from hidc.codegen.symbols import ConcreteSignature
+        params = []
+        for v in vals:
+            if v[0] == 'array':
+                arr = v[1]
+                access = AccessMode.RC if arr.section == 'const' else (AccessMode.RW if arr.writable else AccessMode.R)
+                params.append(ConcreteArrayType(arr.el_type, access))
+            else:
+                params.append(v[2])
+        lbl = self.cg.func_labels.get(ConcreteSignature(e.func, tuple(params)))
+        return lbl.label_name if lbl is not None else None
+
+    def call_contract(self, engine, n, st, cond):
+        if n not in getattr(self, 'callees', {}):
+            return None
+        spec = self.callees[n]
+        c = self.ctx; w = self.w
+        fp, ap = st.regs['fp'], st.regs['ap']
+        implied = engine.implied_under(cond)
+        ra = sem.load_word(c, st.mem, fp - w, w, implied)
+        args = []; off = w
+        for sz in spec['sizes']:
+            off += sz
+            args.append(sem.load_word(c, st.mem, fp - off, sz, implied))
+        engine.safety.append((list(cond), f'call {n}: the RA word and the arguments lie between ap and the callee frame pointer', ap + off <= fp))
+        engine.safety.append((list(cond), f'call {n}: the return address is the end_call label of this call site',
+                              z3.Or(*[ra == c.label(l) for l in engine.labels if l.startswith('end_call')] or [z3.BoolVal(False)])))
+        pre = st.copy()
+        st2 = st.copy()
+        for r in ('r0', 'r1', 'r2'):
+            st2.regs[r] = c.fresh('hv_' + r)
+        fresh_mem = c.fresh('m_' + n, 'mem')
+        rt = spec.get('ret', DataType.EMPTY)
+        rv = None; extra = []
+        ev = CallEvent(n, args, None, pre, fresh_mem, fp, None, c, tuple(st.extents))
+        st2.mem = ev.havoc(st.mem)
+        if rt != DataType.EMPTY:
+            rv = c.fresh('ret_' + n)
+            from contracts import isa as _isa
+            if rt == DataType.BOOL: extra.append(rv <= 1); _isa.set_maybits(rv, 1)
+            elif rt == DataType.BYTE: extra.append(rv <= 255); _isa.set_maybits(rv, 0xFF)
+            elif rt == DataType.STRING: self.string_object(rv)
+            size = self.size_of(rt)
+            st2.mem = sem.as_mem(st2.mem).store(fp - size, size, rv)
+        ev.ret = rv
+        st2.trace = st.trace + (('call', n, ev),)
+        out = []
+        # normal return: control continues at RA
+        for l in engine.jump_value(ra, st2, cond + extra, 'ra'):
+            out.append(l)
+        def abnormal(kind):
+            e2 = CallEvent(n, args, None, pre, fresh_mem, fp, kind, c, tuple(st.extents))
+            s3 = st2.copy(); s3.trace = st.trace + (('call', n, e2),)
+            return s3
+        out.append(Leaf(list(cond), 'term', 'child', abnormal('term')))
+        if spec.get('defeat'):
+            if self.cg.effective_defeat == stdlib.halt:
+                out.append(Leaf(list(cond), 'bot', None, abnormal('defeat')))
+            else:
+                s3 = abnormal('defeat'); s3.regs['fp'] = c.fresh('fp_d'); s3.regs['ap'] = c.fresh('ap_d')
+                deep = [ap <= s3.regs['ap'], s3.regs['ap'] <= s3.regs['fp'], s3.regs['fp'] <= fp]
+                out += engine.jump_value(s3.regs['defeat'], s3, list(cond) + deep, 'defeat')
+        return out
 
     def sync_ignoring_return_slot(self, S, leaf):
         """at a return the value is written over the RA word (callee slot 0): that store is the protocol, not a side effect"""
